@@ -1704,3 +1704,14 @@ mutant("c10-shared-parser", "C10", "C10-D9", "parser/json/parser.go",
 		json:           json,
 	}
 	return func() parser.Parser { return p }""")
+
+# ---------------------------------------------------------------- C18 (round 2)
+mutant("c18-compacted-once-list-not-stored-back", "C18", "C18-D7", "store.go",
+       """		if len(eventsOnce) == 0 {
+			delete(e.eventsOnce, eventName)
+		} else {
+			e.eventsOnce[eventName] = eventsOnce
+		}""",
+       """		if len(eventsOnce) == 0 {
+			delete(e.eventsOnce, eventName)
+		}""")
